@@ -44,7 +44,7 @@ func NewUniverse() *Universe {
 		strLits:   map[string]string{},
 	}
 	u.sortDecls = append(u.sortDecls,
-		"(declare-sort Str 0)",
+		"(define-sort Str () Int)", // strings are opaque identifiers; literal k is the numeral k ("" is 0)
 		"(declare-datatypes ((Iface 0)) (((mk-iface (ityp Int) (ival Int)))))",
 	)
 	u.DeclFun("gs.len", "(Str) Int")
@@ -301,7 +301,10 @@ func (u *Universe) StrLit(s string) T {
 	if n, ok := u.strLits[s]; ok {
 		return T{n, SStr}
 	}
-	n := fmt.Sprintf("strlit!%d", len(u.strLits))
+	n := fmt.Sprintf("%d", len(u.strLits)+1)
+	if s == "" {
+		n = "0"
+	}
 	u.strLits[s] = n
 	u.strOrder = append(u.strOrder, s)
 	return T{n, SStr}
@@ -321,9 +324,7 @@ func (u *Universe) StrAxioms() []string {
 			}
 		}
 	}
-	if len(names) > 1 {
-		out = append(out, "(distinct "+strings.Join(names, " ")+")")
-	}
+	_ = names
 	return out
 }
 
